@@ -31,7 +31,8 @@ COMPONENTS = {
     'stub': ['user objective with failure plan', 'PRNG seam', 'joblib', 'time.time', 'uuid1'],
 }
 PROBES_EXPECTED = ['run_family', 'direct_family', 'view_readback', 'maximised_goal_optimum', 'duplicate_values', 'unsorted_tags',
-                   'rerolled_designs', 'gd_checked', 'eps_checked', 'queried_again_after_more_recordings']
+                   'rerolled_designs', 'gd_checked', 'eps_checked', 'queried_again_after_more_recordings', 'changed_without_count_change',
+                   'eps_integer_reference']
 
 
 def _pairs(a, b):
@@ -174,6 +175,19 @@ def check_indicators(ctx, D, points, key):
         ctx.violation('eps_add', 'quality_indicator.epsilon_add', 'epsilon_add raised %r on finite point sets of %d points' % (e, len(comp)))
         return
     ctx.probe('eps_checked')
+    # integer-typed reference points (a hand-written reference front) against a fractional computed set
+    iref = [tuple(int(round(x)) for x in q) for q in comp if all(abs(x) < 1e9 for x in q)]
+    if iref and d > 0:
+        try:
+            ei = float(epsilon_add(iref, [tuple(x + d for x in q) for q in iref]))
+        except Exception as e:
+            ctx.violation('eps_add', 'quality_indicator.epsilon_add', 'epsilon_add raised %r for an integer-valued reference set' % (e,))
+            return
+        ctx.probe('eps_integer_reference')
+        if abs(ei - d) > 1e-9 * max(1.0, d):
+            ctx.violation('eps_add', 'quality_indicator.epsilon_add', 'epsilon_add(A, A + %r) = %r for the integer-valued set A = %r...'
+                          % (d, ei, iref[:3]))
+            return
     if e0 != 0.0:
         ctx.violation('eps_add', 'quality_indicator.epsilon_add', 'epsilon_add(A, A) = %r for A = %r...' % (e0, comp[:3]))
         return
@@ -283,6 +297,32 @@ def _direct(D):
             check_queries(ctx, p, ledger, tags, res)
             # the history goes on (a second run on the same problem, more generations) and the SAME Results object is asked
             # again: a view must describe the recorded data as it is now, not as it was at the first query
+            # ... or the recorded data change WITHOUT changing their number: a recorded individual gets another generation tag,
+            # or the history is cleared and equally many other individuals are recorded
+            mut = D.dec('work', 'samecount', 4)
+            if mut and ledger and not ctx.violations:
+                ctx.probe('changed_without_count_change')
+                if mut == 1:
+                    j = D.dec('work', 'retag_i', len(ledger))
+                    ind = ledger[j][0]
+                    ind.population_id = (ind.population_id + 1 + D.dec('work', 'retag_t', 3)) % 5
+                    ledger[j] = (ind, ind.population_id, ledger[j][2], ledger[j][3])
+                else:
+                    n_old = len(ledger)
+                    p.individuals.clear()
+                    ledger.clear()
+                    for i in range(n_old):
+                        vec = W.gen_vector(w, D, 'work', ('v2', i))
+                        ind = Individual(vec)
+                        ind.costs = w.f(vec)
+                        ind.calc_signed_costs(w.signs)
+                        ind.state = ind.State.EVALUATED
+                        ind.population_id = D.dec('work', ('tag2', i), 4)
+                        ind.features['front_number'] = 1
+                        p.individuals.append(ind)
+                        ledger.append((ind, ind.population_id, list(ind.vector), list(ind.costs)))
+                tags = [l[1] for l in ledger]
+                check_queries(ctx, p, ledger, tags, res)
             k2 = D.dec('work', 'k2', 6)
             if k2 and not ctx.violations:
                 ctx.probe('queried_again_after_more_recordings')
